@@ -11,6 +11,501 @@ import Rox.Lemmas.GrammarRef
 namespace Rox.Lemmas
 open Rox Rox.Spec Rox.Spec.Grammar Rox.Spec.Mirror Rox.Props.C04
 
+/-! ### The body of a reference: up to the `;` -/
+
+theorem mir_tw_semi (body r : Bytes) (h : ∀ b ∈ body, b ≠ bSemi) :
+    (body ++ bSemi :: r).takeWhile (· != bSemi) = body ∧
+    (body ++ bSemi :: r).drop (body.length + 1) = r := by
+  induction body with
+  | nil => simp
+  | cons a body ih =>
+    have ha : a ≠ bSemi := h a (by simp)
+    obtain ⟨i1, i2⟩ := ih (fun b hb => h b (by simp [hb]))
+    refine ⟨?_, ?_⟩
+    · simp only [List.cons_append]
+      rw [List.takeWhile_cons_of_pos (by simp [ha]), i1]
+    · simp
+
+theorem mir_dec_ne_semi (ds : Bytes) (h : ∀ d ∈ ds, isDecDigit d = true) : ∀ b ∈ ds, b ≠ bSemi := by
+  intro b hb e
+  have := h b hb
+  rw [e] at this
+  revert this; decide
+
+theorem mir_hex_ne_semi (ds : Bytes) (h : ∀ d ∈ ds, isHexDigit d = true) : ∀ b ∈ ds, b ≠ bSemi := by
+  intro b hb e
+  have := h b hb
+  rw [e] at this
+  revert this; decide
+
+theorem mir_parseU32_ne_nil (ds : Bytes) (radix n : Nat) (h : parseU32 ds radix = some n) :
+    ds ≠ [] := by
+  rintro rfl
+  simp [parseU32] at h
+
+theorem mir_refBytes_hex (hs : Bytes) : refBytes (35 :: 120 :: hs) = numRef (parseU32 hs 16) := by
+  simp [refBytes, Lit.lt, Lit.gt, Lit.amp, Lit.apos, Lit.quot]
+
+theorem mir_refBytes_dec (ds : Bytes) (hne : ds ≠ []) (h : ∀ d ∈ ds, isDecDigit d = true) :
+    refBytes (35 :: ds) = numRef (parseU32 ds 10) := by
+  cases ds with
+  | nil => exact absurd rfl hne
+  | cons d ds' =>
+    have hd : d ≠ 120 := by
+      intro e
+      have := h d (by simp)
+      rw [e] at this
+      revert this; decide
+    unfold refBytes
+    have e1 : (35 :: d :: ds' : Bytes) ≠ Lit.lt := by simp [Lit.lt]
+    have e2 : (35 :: d :: ds' : Bytes) ≠ Lit.gt := by simp [Lit.gt]
+    have e3 : (35 :: d :: ds' : Bytes) ≠ Lit.amp := by simp [Lit.amp]
+    have e4 : (35 :: d :: ds' : Bytes) ≠ Lit.apos := by simp [Lit.apos]
+    have e5 : (35 :: d :: ds' : Bytes) ≠ Lit.quot := by simp [Lit.quot]
+    rw [if_neg e1, if_neg e2, if_neg e3, if_neg e4, if_neg e5]
+    split
+    · rename_i hs e
+      simp only [List.cons.injEq, true_and] at e
+      exact absurd e.1 hd
+    · rename_i ds0 _ e
+      simp only [List.cons.injEq, true_and] at e
+      rw [← e]
+    · rename_i h1 h2
+      exact absurd rfl (h2 (d :: ds'))
+
+/-! ### Which character a recognised reference denotes -/
+
+theorem mir_numericRef_dec (T : Tables) (s s' : Stream) (r : Reference)
+    (h : s.numericRef T false = (s', some r)) :
+    ∃ ds n, (∀ d ∈ ds, isDecDigit d = true) ∧ parseU32 ds 10 = some n ∧
+      r = .char (if isScalar n then n else 0xFFFD) ∧
+      s.rest = ds ++ bSemi :: s'.rest ∧ s'.pos = s.pos + ds.length + 1 := by
+  unfold Stream.numericRef at h
+  simp only [Bool.false_eq_true, if_false] at h
+  obtain ⟨h1, h2, h3⟩ := gref_consumeBytes s isDecDigit
+  revert h1 h2 h3 h
+  generalize s.consumeBytes isDecDigit = sv
+  intro h h1 h2 h3
+  split at h
+  · simp at h
+  · rename_i n hn
+    try dsimp only at h
+    by_cases hx : charIsXmlChar T (if isScalar n then n else 0xFFFD) = true
+    · rw [hx] at h
+      simp only [Bool.not_true, Bool.false_eq_true, if_false] at h
+      obtain ⟨e1, e2, e3⟩ := gref_finishRef _ _ _ _ h
+      refine ⟨sv.2.bytes, n, h2, hn, e1, ?_, ?_⟩
+      · rw [h1, e2]
+      · rw [e3, h3]
+    · have hx' : charIsXmlChar T (if isScalar n then n else 0xFFFD) = false := by
+        simpa using hx
+      rw [hx'] at h
+      simp at h
+
+theorem mir_numericRef_hex (T : Tables) (s s' : Stream) (r : Reference)
+    (h : s.numericRef T true = (s', some r)) :
+    ∃ hs n, (∀ d ∈ hs, isHexDigit d = true) ∧ parseU32 hs 16 = some n ∧
+      r = .char (if isScalar n then n else 0xFFFD) ∧
+      s.rest = hs ++ bSemi :: s'.rest ∧ s'.pos = s.pos + hs.length + 1 := by
+  unfold Stream.numericRef at h
+  simp only [if_true] at h
+  obtain ⟨h1, h2, h3⟩ := gref_consumeBytes s isHexDigit
+  revert h1 h2 h3 h
+  generalize s.consumeBytes isHexDigit = sv
+  intro h h1 h2 h3
+  split at h
+  · simp at h
+  · rename_i n hn
+    try dsimp only at h
+    by_cases hx : charIsXmlChar T (if isScalar n then n else 0xFFFD) = true
+    · rw [hx] at h
+      simp only [Bool.not_true, Bool.false_eq_true, if_false] at h
+      obtain ⟨e1, e2, e3⟩ := gref_finishRef _ _ _ _ h
+      refine ⟨sv.2.bytes, n, h2, hn, e1, ?_, ?_⟩
+      · rw [h1, e2]
+      · rw [e3, h3]
+    · have hx' : charIsXmlChar T (if isScalar n then n else 0xFFFD) = false := by
+        simpa using hx
+      rw [hx'] at h
+      simp at h
+
+theorem mir_namedRef (T : Tables) (txt : Bytes) (s s' : Stream) (ch : Nat)
+    (h : s.namedRef T txt = .ok (s', some (.char ch))) :
+    ∃ n, (∀ b ∈ n, b ≠ bSemi) ∧ encodeChar ch = refBytes n ∧
+      s.rest = n ++ bSemi :: s'.rest ∧ s'.pos = s.pos + n.length + 1 := by
+  unfold Stream.namedRef at h
+  split at h
+  · simp at h
+  · simp at h
+  · simp at h
+  · rename_i s2 name hn
+    obtain ⟨hn1, hn2⟩ := gref_consumeName T txt _ _ _ hn
+    simp only [Res.ok.injEq] at h
+    have hall : ∀ r0 : Reference,
+        ((∃ k, r0 = .char k ∧ (∀ b ∈ name.bytes, b ≠ bSemi) ∧
+            encodeChar k = refBytes name.bytes) ∨ r0 = .entity name) →
+        s2.finishRef r0 = (s', some (.char ch)) →
+        ∃ n, (∀ b ∈ n, b ≠ bSemi) ∧ encodeChar ch = refBytes n ∧
+          s.rest = n ++ bSemi :: s'.rest ∧ s'.pos = s.pos + n.length + 1 := by
+      intro r0 hr0 hf
+      obtain ⟨e1, e2, e3⟩ := gref_finishRef _ _ _ _ hf
+      rcases hr0 with ⟨k, hk, hp1, hp2⟩ | he
+      · rw [hk] at e1
+        cases e1
+        refine ⟨name.bytes, hp1, hp2, ?_, ?_⟩
+        · rw [hn1, e2]
+        · rw [e3, hn2]
+      · rw [he] at e1; cases e1
+    refine hall _ ?_ h
+    split
+    · rename_i hb; left; rw [eq_of_beq hb]; exact ⟨34, rfl, by decide, by decide⟩
+    · split
+      · rename_i hb; left; rw [eq_of_beq hb]; exact ⟨38, rfl, by decide, by decide⟩
+      · split
+        · rename_i hb; left; rw [eq_of_beq hb]; exact ⟨39, rfl, by decide, by decide⟩
+        · split
+          · rename_i hb; left; rw [eq_of_beq hb]; exact ⟨60, rfl, by decide, by decide⟩
+          · split
+            · rename_i hb; left; rw [eq_of_beq hb]; exact ⟨62, rfl, by decide, by decide⟩
+            · right; rfl
+
+/-- A recognised character reference `&body;`: the character is the one `refBytes body` names, and
+exactly `&body;` has been consumed. -/
+theorem consumeReference_char (T : Tables) (txt : Bytes) (s s' : Stream) (ch : Nat)
+    (h : s.consumeReference T txt = .ok (s', some (.char ch))) :
+    ∃ body, (∀ b ∈ body, b ≠ bSemi) ∧ encodeChar ch = refBytes body ∧
+      s.rest = bAmp :: (body ++ bSemi :: s'.rest) ∧ s'.pos = s.pos + body.length + 2 := by
+  unfold Stream.consumeReference at h
+  simp only at h
+  split at h
+  · simp at h
+  · rename_i hp1
+    have hp1' : (s.tryConsumeByte bAmp).2 = true := by simpa using hp1
+    obtain ⟨a1, a2⟩ := gref_try s bAmp hp1'
+    revert a1 a2 h
+    generalize (s.tryConsumeByte bAmp).1 = s1
+    intro h a1 a2
+    split at h
+    · rename_i hp2
+      obtain ⟨b1, b2⟩ := gref_try s1 bHash hp2
+      revert b1 b2 h
+      generalize (s1.tryConsumeByte bHash).1 = s2
+      intro h b1 b2
+      simp only [Res.ok.injEq] at h
+      cases hx : (s2.tryConsumeByte bX).2 with
+      | true =>
+        obtain ⟨c1, c2⟩ := gref_try s2 bX hx
+        rw [hx] at h
+        obtain ⟨hs, n, d1, d2, d3, d4, d5⟩ := mir_numericRef_hex T _ _ _ h
+        cases d3
+        refine ⟨bHash :: bX :: hs, ?_, ?_, ?_, ?_⟩
+        · intro b hb
+          rcases List.mem_cons.1 hb with rfl | hb
+          · decide
+          · rcases List.mem_cons.1 hb with rfl | hb
+            · decide
+            · exact mir_hex_ne_semi hs d1 b hb
+        · show _ = refBytes (35 :: 120 :: hs)
+          rw [mir_refBytes_hex, d2]; rfl
+        · rw [a1, b1, c1, d4]; simp
+        · rw [d5, c2, b2, a2]; simp only [List.length_cons]; omega
+      | false =>
+        have c1 := gref_try_false s2 bX hx
+        rw [hx, c1] at h
+        obtain ⟨ds, n, d1, d2, d3, d4, d5⟩ := mir_numericRef_dec T _ _ _ h
+        cases d3
+        refine ⟨bHash :: ds, ?_, ?_, ?_, ?_⟩
+        · intro b hb
+          rcases List.mem_cons.1 hb with rfl | hb
+          · decide
+          · exact mir_dec_ne_semi ds d1 b hb
+        · show _ = refBytes (35 :: ds)
+          rw [mir_refBytes_dec ds (mir_parseU32_ne_nil _ _ _ d2) d1, d2]; rfl
+        · rw [a1, b1, d4]; simp
+        · rw [d5, b2, a2]; simp only [List.length_cons]; omega
+    · rename_i hp2
+      have hp2' : (s1.tryConsumeByte bHash).2 = false := by simpa using hp2
+      rw [gref_try_false s1 bHash hp2'] at h
+      obtain ⟨n, d0, d1, d2, d3⟩ := mir_namedRef T txt _ _ _ h
+      refine ⟨n, d0, d1, ?_, ?_⟩
+      · rw [a1, d2]
+      · rw [d3, a2]; omega
+
+/-! ### The pieces of a run against `decodeWith` -/
+
+theorem mir_decodeWith_nil (lit : Bytes → Bytes) (n : Nat) : decodeWith lit n [] = [] := by
+  cases n <;> rfl
+
+theorem mir_lineEnds_ne_nil (l : Bytes) (h : l ≠ []) : lineEnds l ≠ [] := by
+  cases l with
+  | nil => exact absurd rfl h
+  | cons a l =>
+    unfold lineEnds
+    split <;> simp_all
+
+theorem mir_tw_all (l : Bytes) (h : bAmp ∉ l) : l.takeWhile (· != bAmp) = l := by
+  induction l with
+  | nil => rfl
+  | cons a l ih =>
+    have ha : a ≠ bAmp := fun e => h (by rw [e]; exact List.mem_cons_self ..)
+    rw [List.takeWhile_cons_of_pos (by simp [ha]), ih (fun hm => h (List.mem_cons_of_mem _ hm))]
+
+/-- a run without `&` is one literal part -/
+theorem mir_decodeWith_lit (lit : Bytes → Bytes) (hl : lit [] = []) (n : Nat) (l : Bytes)
+    (h : bAmp ∉ l) : decodeWith lit (n + 1) l = lit l := by
+  cases l with
+  | nil => simp [decodeWith, hl]
+  | cons b r =>
+    have hb : b ≠ bAmp := fun e => h (by rw [e]; exact List.mem_cons_self ..)
+    have htw : (b :: r).takeWhile (· != bAmp) = b :: r := mir_tw_all _ h
+    rw [decodeWith, if_neg hb]
+    simp only [htw, List.drop_length, mir_decodeWith_nil, List.append_nil]
+
+theorem runPieces_decodeWith (T : Tables) (txt : Bytes) : ∀ (fuel : Nat) (s : Stream)
+    (ps : List Piece), runPieces T txt fuel s = some ps → ∀ n, s.rest.length < n →
+      decodePieces ps = decodeWith lineEnds n s.rest ∧
+      attrDecode ps = decodeWith attrLit n s.rest := by
+  intro fuel
+  induction fuel with
+  | zero => intro s ps h; simp [runPieces] at h
+  | succ fuel ih =>
+    intro s ps h n hn
+    obtain ⟨pos, rest⟩ := s
+    rw [runPieces] at h
+    split at h
+    · rename_i hrest
+      simp only at hrest
+      subst hrest
+      simp at h; subst h
+      simp [decodePieces, attrDecode, mir_decodeWith_nil]
+    · rename_i c0 r hrest
+      simp only at hrest
+      subst hrest
+      cases n with
+      | zero => omega
+      | succ n =>
+        split at h
+        · rename_i hc
+          have hc' : c0 = bAmp := eq_of_beq hc
+          split at h
+          · rename_i s' ch hcr
+            simp only [Option.map_eq_some_iff] at h
+            obtain ⟨ps', hps', rfl⟩ := h
+            obtain ⟨body, b1, b2, b3, _⟩ := consumeReference_char T txt _ _ _ hcr
+            simp only [List.cons.injEq] at b3
+            obtain ⟨_, b3⟩ := b3
+            obtain ⟨t1, t2⟩ := mir_tw_semi body s'.rest b1
+            have hlen : s'.rest.length < n := by
+              have := congrArg List.length b3
+              simp only [List.length_append, List.length_cons] at this hn
+              omega
+            obtain ⟨i1, i2⟩ := ih s' ps' hps' n hlen
+            simp only [decodePieces, attrDecode, i1, i2]
+            rw [decodeWith, if_pos hc', decodeWith, if_pos hc']
+            simp only [b3, t1, t2, b2]
+            exact ⟨trivial, trivial⟩
+          · simp at h
+        · rename_i hc
+          have hc' : c0 ≠ bAmp := fun e => hc (by rw [e]; rfl)
+          simp only [Option.map_eq_some_iff] at h
+          obtain ⟨ps', hps', rfl⟩ := h
+          have hlit : (c0 :: r).takeWhile (· != bAmp) = c0 :: r.takeWhile (· != bAmp) := by
+            simp [hc']
+          have hlen : ((c0 :: r).drop ((c0 :: r).takeWhile (· != bAmp)).length).length < n := by
+            rw [hlit]
+            simp only [List.length_cons, List.drop_succ_cons, List.length_drop] at hn ⊢
+            omega
+          obtain ⟨i1, i2⟩ := ih _ ps' hps' n hlen
+          simp only [decodePieces, attrDecode, i1, i2]
+          rw [decodeWith, if_neg hc', decodeWith, if_neg hc']
+          exact ⟨rfl, rfl⟩
+
+theorem runPieces_decode_ne_nil (T : Tables) (txt : Bytes) (fuel : Nat) (s : Stream)
+    (ps : List Piece) (h : runPieces T txt fuel s = some ps) (hne : s.rest ≠ []) :
+    decodePieces ps ≠ [] := by
+  cases fuel with
+  | zero => simp [runPieces] at h
+  | succ fuel =>
+    obtain ⟨pos, rest⟩ := s
+    rw [runPieces] at h
+    split at h
+    · rename_i hrest
+      exact absurd hrest hne
+    · rename_i c0 r hrest
+      simp only at hrest
+      subst hrest
+      split at h
+      · split at h
+        · rename_i s' ch hcr
+          simp only [Option.map_eq_some_iff] at h
+          obtain ⟨ps', hps', rfl⟩ := h
+          simp [decodePieces, encodeChar_ne_nil]
+        · simp at h
+      · rename_i hc
+        have hc' : c0 ≠ bAmp := fun e => hc (by rw [e]; rfl)
+        simp only [Option.map_eq_some_iff] at h
+        obtain ⟨ps', hps', rfl⟩ := h
+        have hlit : (c0 :: r).takeWhile (· != bAmp) = c0 :: r.takeWhile (· != bAmp) := by
+          simp [hc']
+        simp only [decodePieces, hlit]
+        intro e
+        have := (List.append_eq_nil_iff.1 e).1
+        exact mir_lineEnds_ne_nil _ (by simp) this
+
+/-! ### Success of the loops without declared entities: the run has pieces -/
+
+theorem processTextLoop_hasPieces (T : Tables) (txt : Bytes) (lower : Token → Ctx → Res Ctx)
+    (range : Range) (c : Ctx) (he : c.entities = []) :
+    ∀ (n : Nat) (s : Stream), s.rest.length < n → ∀ (fuel : Nat) (buf : TextBuffer)
+      (res : TextBuffer × Ctx), processTextLoop T txt lower range fuel s buf c = .ok res →
+      ∃ ps, runPieces T txt n s = some ps := by
+  intro n
+  induction n with
+  | zero => intro s h; omega
+  | succ n ih =>
+    intro s hlen fuel buf res h
+    obtain ⟨pos, rest⟩ := s
+    cases rest with
+    | nil => exact ⟨[], by simp [runPieces]⟩
+    | cons b r =>
+      cases fuel with
+      | zero => simp [processTextLoop] at h
+      | succ f =>
+        by_cases hb : (b == bAmp) = true
+        · rw [processTextLoop] at h
+          simp only [Stream.atEnd, List.isEmpty_cons, Bool.false_eq_true, if_false] at h
+          rw [Res.bind_eq_ok] at h
+          obtain ⟨⟨s1, chunk⟩, hchunk, h⟩ := h
+          try dsimp only at h
+          unfold parseNextChunk at hchunk
+          simp only [hb, if_true] at hchunk
+          rw [Res.bind_eq_ok] at hchunk
+          obtain ⟨⟨s2, ref⟩, href, hchunk⟩ := hchunk
+          try dsimp only at hchunk
+          split at hchunk
+          · rename_i ch
+            res_norm at hchunk
+            obtain ⟨e1, e2⟩ := hchunk
+            subst e1; subst e2
+            obtain ⟨body, _, _, b3, _⟩ := consumeReference_char T txt _ _ _ href
+            have hlen' : s2.rest.length < n := by
+              have := congrArg List.length b3
+              simp only [List.length_append, List.length_cons] at this hlen
+              omega
+            try dsimp only at h
+            have hex : ∃ buf', processTextLoop T txt lower range f s2 buf' c = .ok res := by
+              split at h
+              · exact ⟨_, h⟩
+              · exact ⟨_, h⟩
+            obtain ⟨buf', h'⟩ := hex
+            obtain ⟨ps', hps'⟩ := ih s2 hlen' f buf' res h'
+            exact ⟨Piece.raw (encodeChar ch) :: ps', by simp [runPieces, hb, href, hps']⟩
+          · rw [he] at hchunk
+            simp only [findEntity, List.find?_nil] at hchunk
+            exact absurd hchunk (errFrom_ne_ok _ _ _ _)
+          · exact absurd hchunk (errFrom_ne_ok _ _ _ _)
+        · have hb' : b ≠ bAmp := fun e => hb (by rw [e]; rfl)
+          obtain ⟨rest', h1, h2, h3, h4⟩ := tw_split (b :: r)
+          have hlit : (b :: r).takeWhile (· != bAmp) = b :: r.takeWhile (· != bAmp) := by
+            simp [hb']
+          have hlen' : rest'.length < n := by
+            have := congrArg List.length h1
+            rw [hlit] at this
+            simp only [List.length_append, List.length_cons] at this hlen
+            omega
+          rw [h1] at h
+          obtain ⟨fuel'', hl'⟩ :=
+            processTextLoop_lit T txt lower range c rest' res _ (f + 1) pos buf h4 h
+          obtain ⟨ps', hps'⟩ := ih _ hlen' fuel'' _ res hl'
+          refine ⟨Piece.lit ((b :: r).takeWhile (· != bAmp)) :: ps', ?_⟩
+          rw [runPieces]
+          simp only [hb, Bool.false_eq_true, if_false, h2, hps', Option.map_some]
+
+theorem normAttrLoop_hasPieces (T : Tables) (txt : Bytes)
+    (rec : Span → TextBuffer → LD → List Ev → Res (TextBuffer × LD × List Ev)) (ld : LD)
+    (tr : List Ev) :
+    ∀ (n : Nat) (s : Stream), s.rest.length < n → ∀ (fuel : Nat) (buf : TextBuffer)
+      (res : TextBuffer × LD × List Ev),
+      normAttrLoop T txt [] rec fuel s buf ld tr = .ok res →
+      ∃ ps, runPieces T txt n s = some ps := by
+  intro n
+  induction n with
+  | zero => intro s h; omega
+  | succ n ih =>
+    intro s hlen fuel buf res h
+    obtain ⟨pos, rest⟩ := s
+    cases rest with
+    | nil => exact ⟨[], by simp [runPieces]⟩
+    | cons b r =>
+      cases fuel with
+      | zero => simp [normAttrLoop] at h
+      | succ f =>
+        by_cases hb : (b == bAmp) = true
+        · rw [normAttrLoop] at h
+          have hb2 : (b != bAmp) = false := by simp [bne, hb]
+          simp only [hb2, Bool.false_eq_true, if_false] at h
+          rw [Res.bind_eq_ok] at h
+          obtain ⟨⟨s2, ref⟩, href, h⟩ := h
+          try dsimp only at h
+          split at h
+          · rename_i ch
+            obtain ⟨body, _, _, b3, _⟩ := consumeReference_char T txt _ _ _ href
+            have hlen' : s2.rest.length < n := by
+              have := congrArg List.length b3
+              simp only [List.length_append, List.length_cons] at this hlen
+              omega
+            have hex : ∃ buf', normAttrLoop T txt [] rec f s2 buf' ld tr = .ok res := by
+              split at h
+              · split at h
+                · exact absurd h (errFrom_ne_ok _ _ _ _)
+                · exact ⟨_, h⟩
+              · exact ⟨_, h⟩
+            obtain ⟨buf', h'⟩ := hex
+            obtain ⟨ps', hps'⟩ := ih s2 hlen' f buf' res h'
+            exact ⟨Piece.raw (encodeChar ch) :: ps', by simp [runPieces, hb, href, hps']⟩
+          · simp only [findEntity, List.find?_nil] at h
+            exact absurd h (errFrom_ne_ok _ _ _ _)
+          · exact absurd h (errFrom_ne_ok _ _ _ _)
+        · have hb' : b ≠ bAmp := fun e => hb (by rw [e]; rfl)
+          obtain ⟨rest', h1, h2, h3, h4⟩ := tw_split (b :: r)
+          have hlit : (b :: r).takeWhile (· != bAmp) = b :: r.takeWhile (· != bAmp) := by
+            simp [hb']
+          have hlen' : rest'.length < n := by
+            have := congrArg List.length h1
+            rw [hlit] at this
+            simp only [List.length_append, List.length_cons] at this hlen
+            omega
+          rw [h1] at h
+          obtain ⟨fuel'', hl'⟩ :=
+            normAttrLoop_lit T txt [] rec ld tr rest' h3 res _ (f + 1) pos buf h4 h
+          obtain ⟨ps', hps'⟩ := ih _ hlen' fuel'' _ res hl'
+          refine ⟨Piece.lit ((b :: r).takeWhile (· != bAmp)) :: ps', ?_⟩
+          rw [runPieces]
+          simp only [hb, Bool.false_eq_true, if_false, h2, hps', Option.map_some]
+
+/-! ### The two theorems -/
+
+theorem mir_attrLit_id (l : Bytes) (h : ∀ b ∈ l, b ≠ bTab ∧ b ≠ bLF ∧ b ≠ bCR) : attrLit l = l := by
+  induction l with
+  | nil => rfl
+  | cons a l ih =>
+    obtain ⟨h1, h2, h3⟩ := h a (by simp)
+    have ih' := ih (fun b hb => h b (by simp [hb]))
+    have e1 : (a == 13) = false := by simpa [bCR] using h3
+    have e2 : (a == 10) = false := by simpa [bLF] using h2
+    have e3 : (a == 9) = false := by simpa [bTab] using h1
+    unfold attrLit
+    split
+    · rename_i e; simp at e
+    · rename_i e
+      simp only [List.cons.injEq] at e
+      rw [e.1] at e1
+      simp at e1
+    · rename_i b r _ e
+      simp only [List.cons.injEq] at e
+      obtain ⟨rfl, rfl⟩ := e
+      simp [e1, e2, e3, ih']
+
 /-- `process_text` on a text token (non-empty, no `<`), no entities declared, depth 0: one
 `append_text` of the decoded run. -/
 theorem processText_mirror (T : Tables) (txt : Bytes) (lower : Token → Ctx → Res Ctx) (c c' : Ctx)
@@ -20,7 +515,40 @@ theorem processText_mirror (T : Tables) (txt : Bytes) (lower : Token → Ctx →
     (hne : t.bytes ≠ []) (hlt : bLt ∉ t.bytes)
     (h : processText T txt lower c t r = .ok c') :
     ∃ s : Str, s.bytes = decodeText t.bytes ∧ c.appendText s r = .ok c' := by
-  sorry
+  have _ := hlt
+  by_cases hany : (t.bytes.any fun b => b == bAmp || b == bCR) = true
+  · have h0 := h
+    unfold processText at h0
+    simp only [hany, Bool.not_true, Bool.false_eq_true, if_false] at h0
+    have hstream : Stream.ofRange txt r.1 r.2 = ⟨t.off, t.bytes⟩ := by
+      rw [hr]; simp only [Stream.ofRange]; rw [← hs]
+    rw [hstream] at h0
+    rw [Res.bind_eq_ok] at h0
+    obtain ⟨⟨buf, c1⟩, hloop, _⟩ := h0
+    obtain ⟨ps, hp⟩ := processTextLoop_hasPieces T txt lower r c hent (t.bytes.length + 1)
+      ⟨t.off, t.bytes⟩ (Nat.lt_succ_self _) _ _ _ hloop
+    obtain ⟨_, hdec⟩ := processText_decodes T txt lower c c' t r hr hs hd ps hp hany h
+    have hnn := runPieces_decode_ne_nil T txt _ _ _ hp hne
+    rw [if_neg hnn] at hdec
+    refine ⟨.owned (decodePieces ps), ?_, hdec⟩
+    exact (runPieces_decodeWith T txt _ _ _ hp _ (Nat.lt_succ_self _)).1
+  · have hany' : (t.bytes.any fun b => b == bAmp || b == bCR) = false := by simpa using hany
+    unfold processText at h
+    simp only [hany', Bool.not_false, if_true] at h
+    refine ⟨.borrowed t, ?_, h⟩
+    show t.bytes = decodeText t.bytes
+    have hamp : bAmp ∉ t.bytes := by
+      intro hm
+      have : (t.bytes.any fun b => b == bAmp || b == bCR) = true :=
+        List.any_eq_true.mpr ⟨bAmp, hm, by simp⟩
+      rw [this] at hany'; cases hany'
+    have hcr : ¬ (13 : UInt8) ∈ t.bytes := by
+      intro hm
+      have : (t.bytes.any fun b => b == bAmp || b == bCR) = true :=
+        List.any_eq_true.mpr ⟨13, hm, by simp [bCR]⟩
+      rw [this] at hany'; cases hany'
+    unfold decodeText
+    rw [mir_decodeWith_lit lineEnds rfl _ _ hamp, lineEnds_no_cr _ hcr]
 
 /-- `normalize_attribute`, no entities declared, depth 0: the value is the decoded raw value, and
 only the ghost trace of the context changes. -/
@@ -28,6 +556,49 @@ theorem normalizeAttribute_mirror (T : Tables) (txt : Bytes) (c c' : Ctx) (v : S
     (hent : c.entities = []) (hd : c.ld.depth = 0) (hlt : bLt ∉ v.bytes)
     (h : normalizeAttribute T txt c v = .ok (c', s)) :
     s.bytes = decodeAttr v.bytes ∧ ∃ tr, c' = { c with trace := tr } := by
-  sorry
+  by_cases hany : (v.bytes.any fun b => b == bAmp || b == bTab || b == bLF || b == bCR) = true
+  · obtain ⟨_, ld, tr, hc'⟩ := normalizeAttribute_noent T txt c c' v s hent hlt h
+    have h0 := h
+    unfold normalizeAttribute at h0
+    simp only [hany, if_true] at h0
+    rw [Res.bind_eq_ok] at h0
+    obtain ⟨⟨buf, ld', tr'⟩, hrec, _⟩ := h0
+    have hdf : depthFuel = 11 + 1 := rfl
+    rw [hdf, normAttrRec, hent] at hrec
+    obtain ⟨ps, hp⟩ := normAttrLoop_hasPieces T txt _ c.ld c.trace (v.bytes.length + 1)
+      ⟨v.off, v.bytes⟩ (Nat.lt_succ_self _) _ _ _ hrec
+    obtain ⟨e1, e2⟩ := normalizeAttribute_decodes T txt c c' v s hd ps hp hany h
+    refine ⟨?_, tr, ?_⟩
+    · rw [e1]
+      exact (runPieces_decodeWith T txt _ _ _ hp _ (Nat.lt_succ_self _)).2
+    · rw [hc'] at e2 ⊢
+      simp only at e2
+      rw [e2]
+  · have hany' : (v.bytes.any fun b => b == bAmp || b == bTab || b == bLF || b == bCR) = false := by
+      simpa using hany
+    unfold normalizeAttribute at h
+    simp only [hany', Bool.false_eq_true, if_false, Res.ok.injEq, Prod.mk.injEq] at h
+    obtain ⟨rfl, rfl⟩ := h
+    refine ⟨?_, c.trace, rfl⟩
+    show v.bytes = decodeAttr v.bytes
+    have hall : ∀ b ∈ v.bytes, (b == bAmp || b == bTab || b == bLF || b == bCR) = false := by
+      intro b hb
+      cases hx : (b == bAmp || b == bTab || b == bLF || b == bCR) with
+      | false => rfl
+      | true =>
+        have : (v.bytes.any fun b => b == bAmp || b == bTab || b == bLF || b == bCR) = true :=
+          List.any_eq_true.mpr ⟨b, hb, hx⟩
+        rw [this] at hany'; cases hany'
+    have hamp : bAmp ∉ v.bytes := by
+      intro hm
+      have := hall _ hm
+      simp at this
+    have hws : ∀ b ∈ v.bytes, b ≠ bTab ∧ b ≠ bLF ∧ b ≠ bCR := by
+      intro b hb
+      have := hall b hb
+      simp only [Bool.or_eq_false_iff, beq_eq_false_iff_ne] at this
+      exact ⟨this.1.1.2, this.1.2, this.2⟩
+    unfold decodeAttr
+    rw [mir_decodeWith_lit attrLit rfl _ _ hamp, mir_attrLit_id _ hws]
 
 end Rox.Lemmas
